@@ -4,7 +4,7 @@ import Xrl.Props.C08f
 
 `T1 T w` : any table `T` with the Kissel part replaced by a small synthetic one in which `CS_Photo_Partial(Z, t, 1 keV)`
 is computed by the low-energy extrapolation branch and returns the VALUE `0.602214129 / w` for every element and
-sub-shell K…Q3 (`own1`); fluorescence yield 0.5, vacancy-transfer constants 1 (Auger only) and 2 (full).
+sub-shell K…Q3 (`own1`); fluorescence yield 0.5, vacancyProd-transfer constants 1 (Auger only) and 2 (full).
 So `OwnOK`, the bounds hypotheses and `0 ≤ auger-only ≤ full` hold together with values (not only vacuously), and
 every theorem of C08b–C08f is instantiated once below.
 -/
@@ -88,74 +88,74 @@ example : Gen.CS_Photo_Partial (T1 T 0) 26 0 1 error = Except.error (Abort.nf "d
     (by norm_num) (by norm_num)]
   simp [T1]
 
-/-! ## C08b: the 32 vacancy functions, hypotheses discharged on the synthetic table (Fe, 1 keV, any `P`) -/
+/-! ## C08b: the 32 vacancyProd functions, hypotheses discharged on the synthetic table (Fe, 1 keV, any `P`) -/
 
 variable (P : Int → ℝ)
 include he
 
-example : Meets (Gen.PL1_pure_kissel (T1 T 1) 26 1 error) error (vacancy (T1 T 1) 26 1 .none P (own1 26 1)) :=
+example : Meets (Gen.PL1_pure_kissel (T1 T 1) 26 1 error) error (vacancyProd (T1 T 1) 26 1 .none P (own1 26 1)) :=
   vacancy_spec_L1_none (T1 T 1) 26 1 P error (own1 26 1) (cs_photo_partial_T1 T 26 error he 1) ((ownOK_T1 T 26).ne_any 1)
-example : Meets (Gen.PL1_rad_cascade_kissel (T1 T 1) 26 1 (P 0) error) error (vacancy (T1 T 1) 26 1 .rad P (own1 26 1)) :=
+example : Meets (Gen.PL1_rad_cascade_kissel (T1 T 1) 26 1 (P 0) error) error (vacancyProd (T1 T 1) 26 1 .rad P (own1 26 1)) :=
   vacancy_spec_L1_rad (T1 T 1) 26 1 P error (own1 26 1) (cs_photo_partial_T1 T 26 error he 1) ((ownOK_T1 T 26).ne_any 1) ((ownOK_T1 T 26).ne_zero 1)
-example : Meets (Gen.PL1_auger_cascade_kissel (T1 T 1) 26 1 (P 0) error) error (vacancy (T1 T 1) 26 1 .auger P (own1 26 1)) :=
+example : Meets (Gen.PL1_auger_cascade_kissel (T1 T 1) 26 1 (P 0) error) error (vacancyProd (T1 T 1) 26 1 .auger P (own1 26 1)) :=
   vacancy_spec_L1_auger (T1 T 1) 26 1 P error (own1 26 1) (cs_photo_partial_T1 T 26 error he 1) ((ownOK_T1 T 26).ne_any 1) ((ownOK_T1 T 26).ne_zero 1) (fun _ _ => by norm_num)
-example : Meets (Gen.PL1_full_cascade_kissel (T1 T 1) 26 1 (P 0) error) error (vacancy (T1 T 1) 26 1 .full P (own1 26 1)) :=
+example : Meets (Gen.PL1_full_cascade_kissel (T1 T 1) 26 1 (P 0) error) error (vacancyProd (T1 T 1) 26 1 .full P (own1 26 1)) :=
   vacancy_spec_L1_full (T1 T 1) 26 1 P error (own1 26 1) (cs_photo_partial_T1 T 26 error he 1) ((ownOK_T1 T 26).ne_any 1) ((ownOK_T1 T 26).ne_zero 1) (fun _ _ => by norm_num)
-example : Meets (Gen.PL2_pure_kissel (T1 T 1) 26 1 (P 1) error) error (vacancy (T1 T 1) 26 2 .none P (own1 26 2)) :=
+example : Meets (Gen.PL2_pure_kissel (T1 T 1) 26 1 (P 1) error) error (vacancyProd (T1 T 1) 26 2 .none P (own1 26 2)) :=
   vacancy_spec_L2_none (T1 T 1) 26 1 P error (own1 26 2) (cs_photo_partial_T1 T 26 error he 2) ((ownOK_T1 T 26).ne_any 2) ((ownOK_T1 T 26).ne_zero 2)
-example : Meets (Gen.PL2_rad_cascade_kissel (T1 T 1) 26 1 (P 0) (P 1) error) error (vacancy (T1 T 1) 26 2 .rad P (own1 26 2)) :=
+example : Meets (Gen.PL2_rad_cascade_kissel (T1 T 1) 26 1 (P 0) (P 1) error) error (vacancyProd (T1 T 1) 26 2 .rad P (own1 26 2)) :=
   vacancy_spec_L2_rad (T1 T 1) 26 1 P error (own1 26 2) (cs_photo_partial_T1 T 26 error he 2) ((ownOK_T1 T 26).ne_any 2) ((ownOK_T1 T 26).ne_zero 2)
-example : Meets (Gen.PL2_auger_cascade_kissel (T1 T 1) 26 1 (P 0) (P 1) error) error (vacancy (T1 T 1) 26 2 .auger P (own1 26 2)) :=
+example : Meets (Gen.PL2_auger_cascade_kissel (T1 T 1) 26 1 (P 0) (P 1) error) error (vacancyProd (T1 T 1) 26 2 .auger P (own1 26 2)) :=
   vacancy_spec_L2_auger (T1 T 1) 26 1 P error (own1 26 2) (cs_photo_partial_T1 T 26 error he 2) ((ownOK_T1 T 26).ne_any 2) ((ownOK_T1 T 26).ne_zero 2) (fun _ _ => by norm_num)
-example : Meets (Gen.PL2_full_cascade_kissel (T1 T 1) 26 1 (P 0) (P 1) error) error (vacancy (T1 T 1) 26 2 .full P (own1 26 2)) :=
+example : Meets (Gen.PL2_full_cascade_kissel (T1 T 1) 26 1 (P 0) (P 1) error) error (vacancyProd (T1 T 1) 26 2 .full P (own1 26 2)) :=
   vacancy_spec_L2_full (T1 T 1) 26 1 P error (own1 26 2) (cs_photo_partial_T1 T 26 error he 2) ((ownOK_T1 T 26).ne_any 2) ((ownOK_T1 T 26).ne_zero 2) (fun _ _ => by norm_num)
-example : Meets (Gen.PL3_pure_kissel (T1 T 1) 26 1 (P 1) (P 2) error) error (vacancy (T1 T 1) 26 3 .none P (own1 26 3)) :=
+example : Meets (Gen.PL3_pure_kissel (T1 T 1) 26 1 (P 1) (P 2) error) error (vacancyProd (T1 T 1) 26 3 .none P (own1 26 3)) :=
   vacancy_spec_L3_none (T1 T 1) 26 1 P error (own1 26 3) (cs_photo_partial_T1 T 26 error he 3) ((ownOK_T1 T 26).ne_any 3) ((ownOK_T1 T 26).ne_zero 3)
-example : Meets (Gen.PL3_rad_cascade_kissel (T1 T 1) 26 1 (P 0) (P 1) (P 2) error) error (vacancy (T1 T 1) 26 3 .rad P (own1 26 3)) :=
+example : Meets (Gen.PL3_rad_cascade_kissel (T1 T 1) 26 1 (P 0) (P 1) (P 2) error) error (vacancyProd (T1 T 1) 26 3 .rad P (own1 26 3)) :=
   vacancy_spec_L3_rad (T1 T 1) 26 1 P error (own1 26 3) (cs_photo_partial_T1 T 26 error he 3) ((ownOK_T1 T 26).ne_any 3) ((ownOK_T1 T 26).ne_zero 3)
-example : Meets (Gen.PL3_auger_cascade_kissel (T1 T 1) 26 1 (P 0) (P 1) (P 2) error) error (vacancy (T1 T 1) 26 3 .auger P (own1 26 3)) :=
+example : Meets (Gen.PL3_auger_cascade_kissel (T1 T 1) 26 1 (P 0) (P 1) (P 2) error) error (vacancyProd (T1 T 1) 26 3 .auger P (own1 26 3)) :=
   vacancy_spec_L3_auger (T1 T 1) 26 1 P error (own1 26 3) (cs_photo_partial_T1 T 26 error he 3) ((ownOK_T1 T 26).ne_any 3) ((ownOK_T1 T 26).ne_zero 3) (fun _ _ => by norm_num)
-example : Meets (Gen.PL3_full_cascade_kissel (T1 T 1) 26 1 (P 0) (P 1) (P 2) error) error (vacancy (T1 T 1) 26 3 .full P (own1 26 3)) :=
+example : Meets (Gen.PL3_full_cascade_kissel (T1 T 1) 26 1 (P 0) (P 1) (P 2) error) error (vacancyProd (T1 T 1) 26 3 .full P (own1 26 3)) :=
   vacancy_spec_L3_full (T1 T 1) 26 1 P error (own1 26 3) (cs_photo_partial_T1 T 26 error he 3) ((ownOK_T1 T 26).ne_any 3) ((ownOK_T1 T 26).ne_zero 3) (fun _ _ => by norm_num)
-example : Meets (Gen.PM1_pure_kissel (T1 T 1) 26 1 error) error (vacancy (T1 T 1) 26 4 .none P (own1 26 4)) :=
+example : Meets (Gen.PM1_pure_kissel (T1 T 1) 26 1 error) error (vacancyProd (T1 T 1) 26 4 .none P (own1 26 4)) :=
   vacancy_spec_M1_none (T1 T 1) 26 1 P error (own1 26 4) (cs_photo_partial_T1 T 26 error he 4) ((ownOK_T1 T 26).ne_any 4)
-example : Meets (Gen.PM1_rad_cascade_kissel (T1 T 1) 26 1 (P 0) (P 1) (P 2) (P 3) error) error (vacancy (T1 T 1) 26 4 .rad P (own1 26 4)) :=
+example : Meets (Gen.PM1_rad_cascade_kissel (T1 T 1) 26 1 (P 0) (P 1) (P 2) (P 3) error) error (vacancyProd (T1 T 1) 26 4 .rad P (own1 26 4)) :=
   vacancy_spec_M1_rad (T1 T 1) 26 1 P error (own1 26 4) (cs_photo_partial_T1 T 26 error he 4) ((ownOK_T1 T 26).ne_any 4) ((ownOK_T1 T 26).ne_zero 4)
-example : Meets (Gen.PM1_auger_cascade_kissel (T1 T 1) 26 1 (P 0) (P 1) (P 2) (P 3) error) error (vacancy (T1 T 1) 26 4 .auger P (own1 26 4)) :=
+example : Meets (Gen.PM1_auger_cascade_kissel (T1 T 1) 26 1 (P 0) (P 1) (P 2) (P 3) error) error (vacancyProd (T1 T 1) 26 4 .auger P (own1 26 4)) :=
   vacancy_spec_M1_auger (T1 T 1) 26 1 P error (own1 26 4) (cs_photo_partial_T1 T 26 error he 4) ((ownOK_T1 T 26).ne_any 4) ((ownOK_T1 T 26).ne_zero 4) (fun _ _ => by norm_num)
-example : Meets (Gen.PM1_full_cascade_kissel (T1 T 1) 26 1 (P 0) (P 1) (P 2) (P 3) error) error (vacancy (T1 T 1) 26 4 .full P (own1 26 4)) :=
+example : Meets (Gen.PM1_full_cascade_kissel (T1 T 1) 26 1 (P 0) (P 1) (P 2) (P 3) error) error (vacancyProd (T1 T 1) 26 4 .full P (own1 26 4)) :=
   vacancy_spec_M1_full (T1 T 1) 26 1 P error (own1 26 4) (cs_photo_partial_T1 T 26 error he 4) ((ownOK_T1 T 26).ne_any 4) ((ownOK_T1 T 26).ne_zero 4) (fun _ _ => by norm_num)
-example : Meets (Gen.PM2_pure_kissel (T1 T 1) 26 1 (P 4) error) error (vacancy (T1 T 1) 26 5 .none P (own1 26 5)) :=
+example : Meets (Gen.PM2_pure_kissel (T1 T 1) 26 1 (P 4) error) error (vacancyProd (T1 T 1) 26 5 .none P (own1 26 5)) :=
   vacancy_spec_M2_none (T1 T 1) 26 1 P error (own1 26 5) (cs_photo_partial_T1 T 26 error he 5) ((ownOK_T1 T 26).ne_any 5) ((ownOK_T1 T 26).ne_zero 5)
-example : Meets (Gen.PM2_rad_cascade_kissel (T1 T 1) 26 1 (P 0) (P 1) (P 2) (P 3) (P 4) error) error (vacancy (T1 T 1) 26 5 .rad P (own1 26 5)) :=
+example : Meets (Gen.PM2_rad_cascade_kissel (T1 T 1) 26 1 (P 0) (P 1) (P 2) (P 3) (P 4) error) error (vacancyProd (T1 T 1) 26 5 .rad P (own1 26 5)) :=
   vacancy_spec_M2_rad (T1 T 1) 26 1 P error (own1 26 5) (cs_photo_partial_T1 T 26 error he 5) ((ownOK_T1 T 26).ne_any 5) ((ownOK_T1 T 26).ne_zero 5)
-example : Meets (Gen.PM2_auger_cascade_kissel (T1 T 1) 26 1 (P 0) (P 1) (P 2) (P 3) (P 4) error) error (vacancy (T1 T 1) 26 5 .auger P (own1 26 5)) :=
+example : Meets (Gen.PM2_auger_cascade_kissel (T1 T 1) 26 1 (P 0) (P 1) (P 2) (P 3) (P 4) error) error (vacancyProd (T1 T 1) 26 5 .auger P (own1 26 5)) :=
   vacancy_spec_M2_auger (T1 T 1) 26 1 P error (own1 26 5) (cs_photo_partial_T1 T 26 error he 5) ((ownOK_T1 T 26).ne_any 5) ((ownOK_T1 T 26).ne_zero 5) (fun _ _ => by norm_num)
-example : Meets (Gen.PM2_full_cascade_kissel (T1 T 1) 26 1 (P 0) (P 1) (P 2) (P 3) (P 4) error) error (vacancy (T1 T 1) 26 5 .full P (own1 26 5)) :=
+example : Meets (Gen.PM2_full_cascade_kissel (T1 T 1) 26 1 (P 0) (P 1) (P 2) (P 3) (P 4) error) error (vacancyProd (T1 T 1) 26 5 .full P (own1 26 5)) :=
   vacancy_spec_M2_full (T1 T 1) 26 1 P error (own1 26 5) (cs_photo_partial_T1 T 26 error he 5) ((ownOK_T1 T 26).ne_any 5) ((ownOK_T1 T 26).ne_zero 5) (fun _ _ => by norm_num)
-example : Meets (Gen.PM3_pure_kissel (T1 T 1) 26 1 (P 4) (P 5) error) error (vacancy (T1 T 1) 26 6 .none P (own1 26 6)) :=
+example : Meets (Gen.PM3_pure_kissel (T1 T 1) 26 1 (P 4) (P 5) error) error (vacancyProd (T1 T 1) 26 6 .none P (own1 26 6)) :=
   vacancy_spec_M3_none (T1 T 1) 26 1 P error (own1 26 6) (cs_photo_partial_T1 T 26 error he 6) ((ownOK_T1 T 26).ne_any 6) ((ownOK_T1 T 26).ne_zero 6)
-example : Meets (Gen.PM3_rad_cascade_kissel (T1 T 1) 26 1 (P 0) (P 1) (P 2) (P 3) (P 4) (P 5) error) error (vacancy (T1 T 1) 26 6 .rad P (own1 26 6)) :=
+example : Meets (Gen.PM3_rad_cascade_kissel (T1 T 1) 26 1 (P 0) (P 1) (P 2) (P 3) (P 4) (P 5) error) error (vacancyProd (T1 T 1) 26 6 .rad P (own1 26 6)) :=
   vacancy_spec_M3_rad (T1 T 1) 26 1 P error (own1 26 6) (cs_photo_partial_T1 T 26 error he 6) ((ownOK_T1 T 26).ne_any 6) ((ownOK_T1 T 26).ne_zero 6)
-example : Meets (Gen.PM3_auger_cascade_kissel (T1 T 1) 26 1 (P 0) (P 1) (P 2) (P 3) (P 4) (P 5) error) error (vacancy (T1 T 1) 26 6 .auger P (own1 26 6)) :=
+example : Meets (Gen.PM3_auger_cascade_kissel (T1 T 1) 26 1 (P 0) (P 1) (P 2) (P 3) (P 4) (P 5) error) error (vacancyProd (T1 T 1) 26 6 .auger P (own1 26 6)) :=
   vacancy_spec_M3_auger (T1 T 1) 26 1 P error (own1 26 6) (cs_photo_partial_T1 T 26 error he 6) ((ownOK_T1 T 26).ne_any 6) ((ownOK_T1 T 26).ne_zero 6) (fun _ _ => by norm_num)
-example : Meets (Gen.PM3_full_cascade_kissel (T1 T 1) 26 1 (P 0) (P 1) (P 2) (P 3) (P 4) (P 5) error) error (vacancy (T1 T 1) 26 6 .full P (own1 26 6)) :=
+example : Meets (Gen.PM3_full_cascade_kissel (T1 T 1) 26 1 (P 0) (P 1) (P 2) (P 3) (P 4) (P 5) error) error (vacancyProd (T1 T 1) 26 6 .full P (own1 26 6)) :=
   vacancy_spec_M3_full (T1 T 1) 26 1 P error (own1 26 6) (cs_photo_partial_T1 T 26 error he 6) ((ownOK_T1 T 26).ne_any 6) ((ownOK_T1 T 26).ne_zero 6) (fun _ _ => by norm_num)
-example : Meets (Gen.PM4_pure_kissel (T1 T 1) 26 1 (P 4) (P 5) (P 6) error) error (vacancy (T1 T 1) 26 7 .none P (own1 26 7)) :=
+example : Meets (Gen.PM4_pure_kissel (T1 T 1) 26 1 (P 4) (P 5) (P 6) error) error (vacancyProd (T1 T 1) 26 7 .none P (own1 26 7)) :=
   vacancy_spec_M4_none (T1 T 1) 26 1 P error (own1 26 7) (cs_photo_partial_T1 T 26 error he 7) ((ownOK_T1 T 26).ne_any 7) ((ownOK_T1 T 26).ne_zero 7)
-example : Meets (Gen.PM4_rad_cascade_kissel (T1 T 1) 26 1 (P 0) (P 1) (P 2) (P 3) (P 4) (P 5) (P 6) error) error (vacancy (T1 T 1) 26 7 .rad P (own1 26 7)) :=
+example : Meets (Gen.PM4_rad_cascade_kissel (T1 T 1) 26 1 (P 0) (P 1) (P 2) (P 3) (P 4) (P 5) (P 6) error) error (vacancyProd (T1 T 1) 26 7 .rad P (own1 26 7)) :=
   vacancy_spec_M4_rad (T1 T 1) 26 1 P error (own1 26 7) (cs_photo_partial_T1 T 26 error he 7) ((ownOK_T1 T 26).ne_any 7) ((ownOK_T1 T 26).ne_zero 7)
-example : Meets (Gen.PM4_auger_cascade_kissel (T1 T 1) 26 1 (P 0) (P 1) (P 2) (P 3) (P 4) (P 5) (P 6) error) error (vacancy (T1 T 1) 26 7 .auger P (own1 26 7)) :=
+example : Meets (Gen.PM4_auger_cascade_kissel (T1 T 1) 26 1 (P 0) (P 1) (P 2) (P 3) (P 4) (P 5) (P 6) error) error (vacancyProd (T1 T 1) 26 7 .auger P (own1 26 7)) :=
   vacancy_spec_M4_auger (T1 T 1) 26 1 P error (own1 26 7) (cs_photo_partial_T1 T 26 error he 7) ((ownOK_T1 T 26).ne_any 7) ((ownOK_T1 T 26).ne_zero 7) (fun _ _ => by norm_num)
-example : Meets (Gen.PM4_full_cascade_kissel (T1 T 1) 26 1 (P 0) (P 1) (P 2) (P 3) (P 4) (P 5) (P 6) error) error (vacancy (T1 T 1) 26 7 .full P (own1 26 7)) :=
+example : Meets (Gen.PM4_full_cascade_kissel (T1 T 1) 26 1 (P 0) (P 1) (P 2) (P 3) (P 4) (P 5) (P 6) error) error (vacancyProd (T1 T 1) 26 7 .full P (own1 26 7)) :=
   vacancy_spec_M4_full (T1 T 1) 26 1 P error (own1 26 7) (cs_photo_partial_T1 T 26 error he 7) ((ownOK_T1 T 26).ne_any 7) ((ownOK_T1 T 26).ne_zero 7) (fun _ _ => by norm_num)
-example : Meets (Gen.PM5_pure_kissel (T1 T 1) 26 1 (P 4) (P 5) (P 6) (P 7) error) error (vacancy (T1 T 1) 26 8 .none P (own1 26 8)) :=
+example : Meets (Gen.PM5_pure_kissel (T1 T 1) 26 1 (P 4) (P 5) (P 6) (P 7) error) error (vacancyProd (T1 T 1) 26 8 .none P (own1 26 8)) :=
   vacancy_spec_M5_none (T1 T 1) 26 1 P error (own1 26 8) (cs_photo_partial_T1 T 26 error he 8) ((ownOK_T1 T 26).ne_any 8) ((ownOK_T1 T 26).ne_zero 8)
-example : Meets (Gen.PM5_rad_cascade_kissel (T1 T 1) 26 1 (P 0) (P 1) (P 2) (P 3) (P 4) (P 5) (P 6) (P 7) error) error (vacancy (T1 T 1) 26 8 .rad P (own1 26 8)) :=
+example : Meets (Gen.PM5_rad_cascade_kissel (T1 T 1) 26 1 (P 0) (P 1) (P 2) (P 3) (P 4) (P 5) (P 6) (P 7) error) error (vacancyProd (T1 T 1) 26 8 .rad P (own1 26 8)) :=
   vacancy_spec_M5_rad (T1 T 1) 26 1 P error (own1 26 8) (cs_photo_partial_T1 T 26 error he 8) ((ownOK_T1 T 26).ne_any 8) ((ownOK_T1 T 26).ne_zero 8)
-example : Meets (Gen.PM5_auger_cascade_kissel (T1 T 1) 26 1 (P 0) (P 1) (P 2) (P 3) (P 4) (P 5) (P 6) (P 7) error) error (vacancy (T1 T 1) 26 8 .auger P (own1 26 8)) :=
+example : Meets (Gen.PM5_auger_cascade_kissel (T1 T 1) 26 1 (P 0) (P 1) (P 2) (P 3) (P 4) (P 5) (P 6) (P 7) error) error (vacancyProd (T1 T 1) 26 8 .auger P (own1 26 8)) :=
   vacancy_spec_M5_auger (T1 T 1) 26 1 P error (own1 26 8) (cs_photo_partial_T1 T 26 error he 8) ((ownOK_T1 T 26).ne_any 8) ((ownOK_T1 T 26).ne_zero 8) (fun _ _ => by norm_num)
-example : Meets (Gen.PM5_full_cascade_kissel (T1 T 1) 26 1 (P 0) (P 1) (P 2) (P 3) (P 4) (P 5) (P 6) (P 7) error) error (vacancy (T1 T 1) 26 8 .full P (own1 26 8)) :=
+example : Meets (Gen.PM5_full_cascade_kissel (T1 T 1) 26 1 (P 0) (P 1) (P 2) (P 3) (P 4) (P 5) (P 6) (P 7) error) error (vacancyProd (T1 T 1) 26 8 .full P (own1 26 8)) :=
   vacancy_spec_M5_full (T1 T 1) 26 1 P error (own1 26 8) (cs_photo_partial_T1 T 26 error he 8) ((ownOK_T1 T 26).ne_any 8) ((ownOK_T1 T 26).ne_zero 8) (fun _ _ => by norm_num)
 
 /-! ## C08c–C08f -/
@@ -222,11 +222,11 @@ example : Fails (Gen.CS_FluorLine_Kissel_Cascade (T1 T 1) 26 (-115) 1 error) err
 
 omit he in
 /-- … although by its name it is a line of M1 -/
-example : lineShell (-115) = some 4 := by decide
+example : lineShellK (-115) = some 4 := by decide
 
 omit he in
 /-- the K lines by name -/
-example : lineShell (-3) = some 0 ∧ lineShell 0 = some 0 ∧ lineShell 1 = some 0 := by decide
+example : lineShellK (-3) = some 0 ∧ lineShellK 0 = some 0 ∧ lineShellK 1 = some 0 := by decide
 
 omit he in
 example : Gen.CS_FluorLine_Kissel_no_Cascade T Z (-3) 1 error = Gen.CS_FluorLine_Kissel_Cascade T Z (-3) 1 error :=
@@ -373,7 +373,7 @@ theorem fluorShell_T1_L1 : fluorShell (T1 T 1) 26 1 1 .full (own1 26) = .value (
   have hc : (0:ℝ) < c1 := by unfold c1; norm_num
   unfold fluorShell
   simp only [zOk, mOk, Hdr.ZMAX, Hdr.K_SHELL, Hdr.M5_SHELL, hy, withYield]
-  norm_num [innerP, vacancy_K, ho0, ho1, valOr0, vacancy, lowerSame_1, inner_1, transfer, cellFull, T1, scaleBy, hc]
+  norm_num [innerP, vacancy_K, ho0, ho1, valOr0, vacancyProd, lowerSame_1, inner_1, transfer, cellFull, T1, scaleBy, hc]
 
 /-- … and the generated function returns exactly that -/
 example : Gen.CS_FluorShell_Kissel_Cascade (T1 T 1) 26 1 1 error = Except.ok ((c1 + c1 * 2) * 0.5, error) := by
